@@ -164,18 +164,36 @@ func RRepCases(c *core.Ctx) {
 		return
 	}
 	produced := map[int64]string{}
-	ast.Inspect(sd.Body, func(n ast.Node) bool {
-		as, ok := n.(*ast.AssignStmt)
-		if !ok || len(as.Rhs) != 1 {
-			return true
+	// the special-token constants scanDollar mentions — assigned, returned or compared — in its
+	// own body or in a helper of the package it hands the symbol to
+	seenSD := map[*ast.FuncDecl]bool{}
+	var collectSD func(d *ast.FuncDecl, depth int)
+	collectSD = func(d *ast.FuncDecl, depth int) {
+		if d == nil || d.Body == nil || seenSD[d] || depth > 2 {
+			return
 		}
-		if id, ok := as.Rhs[0].(*ast.Ident); ok && strings.HasPrefix(id.Name, "replace") {
-			if v, ok := core.ConstInt(syn.TypesInfo, id); ok {
-				produced[v] = id.Name
+		seenSD[d] = true
+		ast.Inspect(d.Body, func(n ast.Node) bool {
+			switch x := n.(type) {
+			case *ast.Ident:
+				if k, ok := syn.TypesInfo.ObjectOf(x).(*types.Const); ok && k.Pkg() == syn.Types && strings.HasPrefix(core.BaseName(k), "replace") {
+					if v, ok := core.ConstInt(syn.TypesInfo, x); ok && v < 0 {
+						produced[v] = core.BaseName(k)
+					}
+				}
+			case *ast.CallExpr:
+				if fn := core.Callee(syn.TypesInfo, x); fn != nil && fn.Pkg() == syn.Types && depth < 2 {
+					// only small leaf helpers: functions without a parser receiver
+					if sig, ok := fn.Type().(*types.Signature); ok && sig.Recv() == nil {
+						cd, _ := p.DeclOf(fn)
+						collectSD(cd, depth+1)
+					}
+				}
 			}
-		}
-		return true
-	})
+			return true
+		})
+	}
+	collectSD(sd, 0)
 	if len(produced) == 0 {
 		c.Anchor("special tokens assigned in scanDollar")
 		return
